@@ -426,14 +426,46 @@ fn class_of(it: &Item) -> String {
 }
 
 /// Evaluate one item alone; returns the failure if the engine disagrees with the model.
-fn check_single(ws: &mut Workers, cfg: &Config, it: &Item, stats: Option<&Stats>) -> PropResult {
+/// The case for a list of (position, item): as top-level text (REPL entry) or as the body of
+/// a module required by a one-line main program (how files run; there the compiler emits the
+/// specialised arithmetic opcodes).  Returns (case, text shown in failure reports).
+fn make_case(items: &[(usize, &Item)], module: bool) -> (Case, String) {
+    if !module {
+        let mut src = String::new();
+        for (pos, it) in items {
+            src.push_str(&render(it, *pos));
+            src.push('\n');
+        }
+        return (Case::eval(src.clone()), src);
+    }
+    let mut body = String::new();
+    let mut names = vec![];
+    for (pos, it) in items {
+        let text = render(it, *pos);
+        let (defs, call) = match text.rsplit_once('\n') {
+            Some((d, c)) => (format!("{}\n", d), c.to_string()),
+            None => (String::new(), text.clone()),
+        };
+        let name = format!("r{}", pos);
+        body.push_str(&defs);
+        body.push_str(&format!("(define {} {})\n", name, call));
+        names.push(name);
+    }
+    let module_src = format!("(provide {})\n{}", names.join(" "), body);
+    let main = format!("(require \"vmain\")\n{}", names.join("\n"));
+    let shown = format!(";; module vmain\n{};; main\n{}", module_src, main);
+    (Case::new(vec![Step::Module { name: "vmain".into(), src: module_src }, Step::Eval { src: main }]), shown)
+}
+
+/// Evaluate one item alone; returns the failure if the engine disagrees with the model.
+fn check_single(ws: &mut Workers, cfg: &Config, it: &Item, stats: Option<&Stats>, module: bool) -> PropResult {
     let exp = expected(it);
-    let src = render(it, 0);
-    let r = ws.run(cfg, &Case::eval(src.clone()));
+    let (case, shown) = make_case(&[(0, it)], module);
+    let r = ws.run(cfg, &case);
     if let Some(s) = stats {
         s.engine_runs.fetch_add(1, std::sync::atomic::Ordering::Relaxed);
     }
-    judge(it, &exp, &src, &r, cfg)
+    judge(it, &exp, &shown, &r, cfg)
 }
 
 fn judge(it: &Item, exp: &Expect, src: &str, r: &CaseResult, cfg: &Config) -> PropResult {
@@ -488,17 +520,14 @@ fn configs(ctx: &Ctx) -> Vec<Config> {
 /// (a define + a call each); if anything in the batch disagrees, and for items expected to
 /// fail, items are evaluated one by one.
 fn check_batch(ctx: &Ctx, ws: &mut Workers, b: &Batch, counting: bool) -> PropResult {
-    for cfg in configs(ctx) {
+    for (cfg, module) in configs(ctx).into_iter().flat_map(|c| [(c.clone(), false), (c, true)]) {
         let exps: Vec<Expect> = b.items.iter().map(expected).collect();
         let ok_idx: Vec<usize> = (0..b.items.len()).filter(|i| matches!(exps[*i], Expect::Any(_))).collect();
-        let mut src = String::new();
-        for (pos, i) in ok_idx.iter().enumerate() {
-            src.push_str(&render(&b.items[*i], pos));
-            src.push('\n');
-        }
+        let listed: Vec<(usize, &Item)> = ok_idx.iter().enumerate().map(|(pos, i)| (pos, &b.items[*i])).collect();
         let mut batch_ok = false;
         if !ok_idx.is_empty() {
-            let r = ws.run(&cfg, &Case::eval(src));
+            let (case, _) = make_case(&listed, module);
+            let r = ws.run(&cfg, &case);
             ctx.stats.engine_runs.fetch_add(1, std::sync::atomic::Ordering::Relaxed);
             if matches!(r.end, End::Watchdog | End::Oom) {
                 if counting {
@@ -522,7 +551,7 @@ fn check_batch(ctx: &Ctx, ws: &mut Workers, b: &Batch, counting: bool) -> PropRe
         for (i, it) in b.items.iter().enumerate() {
             let single_needed = !matches!(exps[i], Expect::Any(_)) || !batch_ok;
             if single_needed {
-                if let Err(f) = check_single(ws, &cfg, it, Some(&ctx.stats)) {
+                if let Err(f) = check_single(ws, &cfg, it, Some(&ctx.stats), module) {
                     match ctx.match_known(&f) {
                         Some(k) => {
                             if counting {
@@ -549,7 +578,7 @@ fn check_batch(ctx: &Ctx, ws: &mut Workers, b: &Batch, counting: bool) -> PropRe
                     ctx.stats.nontrivial(&format!("{:?}", it));
                 }
                 if ctx.stats.want_sample() && i == 0 {
-                    ctx.stats.sample(serde_json::json!({"program": render(it, 0), "expected": format!("{:?}", exps[i]), "config": cfg.label()}));
+                    ctx.stats.sample(serde_json::json!({"program": make_case(&[(0, it)], module).1, "expected": format!("{:?}", exps[i]), "config": cfg.label()}));
                 }
             }
         }
@@ -561,7 +590,8 @@ fn rerun(b: &Batch) -> PropResult {
     let mut ws = Workers::new();
     for cfg in [Config::default_cfg(), Config::jit_off()] {
         for it in &b.items {
-            check_single(&mut ws, &cfg, it, None)?;
+            check_single(&mut ws, &cfg, it, None, false)?;
+            check_single(&mut ws, &cfg, it, None, true)?;
         }
     }
     Ok(())
@@ -571,7 +601,8 @@ pub fn run(ctx: &Ctx, replay: Option<&str>) -> i32 {
     ctx.set_rule(
         "proptest generates (operator, 1-4 operands, syntactic shape); operands from small ints, 2^k±{0,1,2} for k in \
          {31,32,52,53,62,63,64,65}, bignums to 2^192, small/boundary/huge ratios, doubles incl. ±0.0, subnormals, 2^53, \
-         2^63, ±inf, NaN; each is run with the JIT on and off. An evaluation is one (item, configuration). Non-trivial = an \
+         2^63, ±inf, NaN; each is run with the JIT on and off, entered as top-level text and as the body of a required \
+         module (where the specialised arithmetic opcodes are emitted). An evaluation is one (item, configuration, entry). Non-trivial = an \
          operand or the exact result is non-integral or outside [-2^62, 2^62], or the tuple mixes exact and inexact; \
          distinct by (op, shape, operands).",
     );
